@@ -249,9 +249,12 @@ def run_unit(spec_path: str, tier: str, seed: int, kf_omit: set, do_vacuity: boo
     # obligations
     ltags = lemma_tags(spec_path)
     failed_by_fn: Dict[str, List[dict]] = {}
+    failed_lemmas: Dict[str, dict] = {}
     for f in failures:
         if f["fid"] is None:
             R.infra_failed.append(f)
+        elif f["fid"].startswith("lemma:"):
+            failed_lemmas.setdefault(f["fid"][6:], f)
         else:
             failed_by_fn.setdefault(f["fid"], []).append(f)
     for fid, info in g.functions.items():
@@ -277,22 +280,32 @@ def run_unit(spec_path: str, tier: str, seed: int, kf_omit: set, do_vacuity: boo
     # lemmas (proof fns in the spec text): discharged iff no diagnostic points into them
     spec_lines = {}
     for name, tags in ltags.items():
-        ok = True
-        for bn, d in fb.items():
-            if bn.endswith("::" + name) and not d["success"]:
-                ok = False
+        ok = name not in failed_lemmas
         R.obligations.append({"oid": f"{unit}/lemma:{name}", "kind": "lemma", "tags": tags, "discharged": ok, "fid": None})
         if not ok:
-            R.failed.append({"oid": f"{unit}/lemma:{name}", "fid": None, "label": f"lemma:{name}", "message": "lemma no longer proves",
-                             "line": None, "excerpt": "\n".join(x["excerpt"] for x in R.infra_failed)[:3000]})
+            fl = failed_lemmas[name]
+            R.failed.append({"oid": f"{unit}/lemma:{name}", "fid": None, "label": f"lemma:{name}", "message": "lemma no longer proves: " + fl["message"],
+                             "line": fl["line"], "excerpt": fl["excerpt"]})
     lemma_names = set(ltags)
     # infra failures that are not lemma failures: shim/E1 code does not verify -> machinery problem
     real_infra = []
     for x in R.infra_failed:
         real_infra.append(x)
-    failed_lemma = [o for o in R.obligations if o["kind"] == "lemma" and not o["discharged"]]
-    if R.infra_failed and not failed_lemma:
+    for nm, fl in failed_lemmas.items():
+        if nm not in ltags:   # a proof fn of the shim
+            R.infra_failed.append(fl)
+    if R.infra_failed:
         R.status = "undecided"; R.reason = "a shim / generated helper no longer verifies: " + R.infra_failed[0]["message"] + " @" + str(R.infra_failed[0]["line"])
+    # lemmas are spec-only proofs (they do not mention function bodies): a failing lemma is solver instability or a
+    # machinery problem, never a violation. Retry once with another seed / rlimit, then report undecided.
+    lemma_fail = [x for x in R.failed if x["label"].startswith("lemma:")]
+    if lemma_fail and not tag.endswith("_retry"):
+        R2 = run_unit(spec_path, tier, 7, kf_omit, do_vacuity, 30.0, tag + "_retry", bdir)
+        R2.wall += R.wall
+        return R2
+    if lemma_fail:
+        R.failed = [x for x in R.failed if not x["label"].startswith("lemma:")]
+        R.status = "undecided"; R.reason = "lemma does not prove (after retry): " + ", ".join(x["oid"] for x in lemma_fail)
     if R.failed and R.status == "ok":
         R.status = "failed"
     # vacuity: every function under contract must FAIL when `assert(false)` is put first in its body
